@@ -7,6 +7,8 @@ def main():
     ap.add_argument("--only", action="append"); ap.add_argument("--replay"); ap.add_argument("--jobs", type=int); ap.add_argument("--module")
     a = ap.parse_args()
     os.environ["VERIF_TIER"] = a.tier
+    if a.only and not a.module:
+        os.environ.setdefault("VERIF_EVIDENCE_DIR", "/tmp/verif_dev_evidence/only")      # a run restricted with --only does not describe the whole check: never overwrite evidence/<id>.json
     if a.module:
         os.environ["VERIF_MODULE"] = a.module
         os.environ.setdefault("VERIF_EVIDENCE_DIR", f"/tmp/verif_dev_evidence/{a.module}")
